@@ -645,8 +645,12 @@ impl TxRecoveryState {
                     );
                 },
                 TxWalEntry::PrepareVote { tx_id, shard, vote } => {
-                    if let Some((_, votes, _)) = in_progress.get_mut(tx_id) {
-                        votes.push((*shard, *vote));
+                    // The coordinator logs a vote before validating it, so late and duplicate
+                    // votes it rejected are in the log too: keep only what it accepted.
+                    if let Some((_, votes, phase)) = in_progress.get_mut(tx_id) {
+                        if *phase == TxPhase::Preparing && !votes.iter().any(|(s, _)| s == shard) {
+                            votes.push((*shard, *vote));
+                        }
                     }
                 },
                 TxWalEntry::PhaseChange { tx_id, to, .. } => {
